@@ -391,6 +391,9 @@ int main() {
     printf("%s ok steps=%llu pre=%llu | %s | once=%d deps=%d flag=%d input=%d dataonce=%d wait=%d fin=%d tgtready=%d\n", id.c_str(),
            steps, pre, out.c_str(), once, ctx.mon_deps, ctx.mon_flag, ctx.mon_input, dataonce, wait_ok, fin_ok, tgt_ready);
     fflush(stdout);
+    // x mode (one case per process): after a premature finish the closure / graph may be in a state where their
+    // destructors wait forever outside the scheduler; the case's line is out, leave without running them
+    if (inflight) _exit(0);
     graph.reset();
   }
   return 0;
